@@ -26,7 +26,7 @@ class Adt:
     def __repr__(s): return '<Adt %s>' % s.key
 
 class Impl:
-    __slots__ = ('crate', 'file', 'line', 'col', 'self_ty', 'trait', 'trait_args', 'methods', 'self_key', 'self_adt')
+    __slots__ = ('crate', 'file', 'line', 'col', 'self_ty', 'trait', 'trait_args', 'methods', 'self_key', 'self_adt', 'generics')
 
 def ty_key(t):
     """short printable key of a rustdoc type: last path segment, &-prefix for references"""
@@ -63,6 +63,7 @@ class TypeTab:
         self.variant_owner = {}   # variant simple name -> [(Adt, idx)]
         self.docs = {}
         self.aliases = {}         # `pub use a::B as C` : C -> B
+        self.fn_generics = {}     # (crate, fn name) -> [type parameter names]  (free functions and methods, by simple name)
         for n, a in BUILTIN.items(): self.by_name.setdefault(n, []).append(a)
 
     def load(self, crate, path):
@@ -101,6 +102,11 @@ class TypeTab:
             if a.kind == 'enum':
                 for i, v in enumerate(a.variants): self.variant_owner.setdefault(v.name, []).append((a, i))
         for k, it in idx.items():
+            fn = it['inner'].get('function') if isinstance(it['inner'], dict) else None
+            if fn and it.get('name'):
+                gs = [g['name'] for g in fn['generics']['params'] if 'type' in g.get('kind', {})]
+                if gs: self.fn_generics.setdefault((crate, it['name']), []).append(gs)
+        for k, it in idx.items():
             u = it['inner'].get('use') if isinstance(it['inner'], dict) else None
             if u and u.get('name') and u.get('source') and u['name'] != u['source'].split('::')[-1] and not u.get('is_glob'):
                 self.aliases[u['name']] = u['source'].split('::')[-1]
@@ -113,6 +119,7 @@ class TypeTab:
             o.trait_args = im['trait']['args'] if im['trait'] else None
             o.methods = [idx[str(i)]['name'] for i in im['items'] if str(i) in idx]
             o.self_key = ty_key(im['for'])
+            o.generics = [g['name'] for g in im['generics']['params'] if 'type' in g.get('kind', {})]
             o.self_adt = None
             t = im['for']
             while t and 'borrowed_ref' in t: t = t['borrowed_ref']['type']
